@@ -314,6 +314,15 @@ func slice(fr *frame, x, lo, hi, max value) value {
 }
 
 // lookup returns x[idx] where x is a map.
+func unsafeTable(fr *frame) map[*value]value {
+	t, _ := fr.i.p.extra["unsafeData"].(map[*value]value)
+	if t == nil {
+		t = map[*value]value{}
+		fr.i.p.extra["unsafeData"] = t
+	}
+	return t
+}
+
 func lookup(fr *frame, instr *ssa.Lookup, x, idx value) value {
 	switch x := x.(type) { // map or string
 	case map[value]value, *hashmap:
@@ -1130,9 +1139,51 @@ func callBuiltin(caller *frame, callpos token.Pos, fn *ssa.Builtin, args []value
 
 	case "ssa:deferstack":
 		return &caller.defers
+
+	// unsafe.{StringData,String,SliceData,Slice}: modelled on the boxed backing store. The pointer returned
+	// by the *Data form is an opaque cell that remembers the string/slice it was taken from; String/Slice
+	// give back a prefix of exactly that store. (log/slog's Value keeps strings and groups this way.)
+	case "StringData", "SliceData":
+		cell := new(value)
+		tbl := unsafeTable(caller)
+		tbl[cell] = args[0]
+		return cell
+	case "String":
+		ptr, _ := args[0].(*value)
+		n := int(caller.conc(args[1]))
+		if n == 0 {
+			return ""
+		}
+		store, ok := unsafeTable(caller)[ptr]
+		if !ok {
+			panic(engineError{"unsafe.String of a pointer that did not come from unsafe.StringData"})
+		}
+		b := strBytes(store)
+		if n > len(b) {
+			panic(engineError{"unsafe.String beyond the original string"})
+		}
+		return mkStr(append([]value{}, b[:n]...))
+	case "Slice":
+		ptr, _ := args[0].(*value)
+		n := int(caller.conc(args[1]))
+		if ptr == nil {
+			if n == 0 {
+				return []value(nil)
+			}
+			panic(runtimeError("unsafe.Slice: ptr is nil and len is not zero"))
+		}
+		store, ok := unsafeTable(caller)[ptr]
+		if !ok {
+			panic(engineError{"unsafe.Slice of a pointer that did not come from unsafe.SliceData"})
+		}
+		sl := store.([]value)
+		if n > len(sl) {
+			panic(engineError{"unsafe.Slice beyond the original slice"})
+		}
+		return sl[:n:n]
 	}
 
-	panic("unknown built-in: " + fn.Name())
+	panic(engineError{"unknown built-in: " + fn.Name()})
 }
 
 func rangeIter(fr *frame, x value, t types.Type) iter {
